@@ -494,6 +494,28 @@ func (x *Exec) applyContract(st *State, con *Contract, name string, pnames []str
 	}
 	// effects. The allocation counter is advanced first: typing invariants of the heap versions
 	// created below must refer to the counter AFTER the callee's allocations.
+	assumed := con.Trusted || con.NoEffect || con.Pkg == ""
+	coverKey := ""
+	if assumed && !st.dead && len(con.Ensures) > 0 {
+		// vacuity guard for ASSUMED contracts: the first time a function applies the contract of a
+		// given callee, "reachable before the call" and "reachable after the call" are both queried;
+		// reachable-before but unreachable-after means the assumed contract contradicts itself here
+		if x.callCover == nil {
+			x.callCover = map[string]bool{}
+		}
+		k := x.curKey + "|" + name
+		if !x.callCover[k] {
+			x.callCover[k] = true
+			coverKey = name
+			x.coverPoint(st, "cover-call-pre", name)
+		}
+	}
+	if con.NoEffect {
+		// "no effect" is about existing state: the results may still be newly allocated objects
+		oa := x.heap(st, "$alloc", "Int")
+		na := x.havocHeap(st, "$alloc", "Int")
+		st.assume(fmt.Sprintf("(>= %s %s)", na, oa))
+	}
 	if !con.NoEffect {
 		oa := x.heap(st, "$alloc", "Int")
 		na := x.havocHeap(st, "$alloc", "Int")
@@ -520,7 +542,20 @@ func (x *Exec) applyContract(st *State, con *Contract, name string, pnames []str
 	for _, c := range con.Ensures {
 		st.assume(x.evalClause(env, c, "postcondition of "+name))
 	}
+	if coverKey != "" {
+		x.coverPoint(st, "cover-call-post", coverKey)
+	}
 	cont(st, res)
+}
+
+// coverPoint records a reachability query for the current point of the path.
+func (x *Exec) coverPoint(st *State, kind, detail string) {
+	if st.dead {
+		return
+	}
+	ob := &Obligation{Name: x.curKey + "#" + kind + ":" + detail, Fn: x.curKey, Kind: kind, Desc: detail, Path: append([]string(nil), st.pcDesc...)}
+	ob.Query = st.scriptText() + "(check-sat)\n"
+	x.obls = append(x.obls, ob)
 }
 
 type modTarget struct {
